@@ -253,6 +253,27 @@ pub async fn run(args: &Args, rep: &mut Reporter) {
                 e.push((evil.to_string(), b"ESCAPED".to_vec()));
                 mutants.push((format!("extra_entry_name:{}", &evil.chars().take(12).collect::<String>().replace(['/', '\\'], "_")), e, false));
             }
+            // traversal AFTER a prefix that validates (a real `files/<folder>/<secret>/` or
+            // `blobs/...` entry of this archive, or a well-formed id), at every depth that can
+            // land between the target and the watched directory
+            {
+                let real = entries.iter().map(|(n, _)| n.clone()).find(|n| (n.starts_with("files/") || n.starts_with("blobs/")) && n.matches('/').count() >= 3);
+                let mut prefixes: Vec<String> = vec!["files/00000000-0000-4000-8000-000000000000".into(), "blobs/00000000-0000-4000-8000-000000000000".into()];
+                if let Some(r) = real {
+                    let parts: Vec<&str> = r.split('/').collect();
+                    prefixes.push(parts[..2].join("/"));
+                    prefixes.push(parts[..3].join("/"));
+                    prefixes.push(parts[..parts.len() - 1].join("/"));
+                }
+                for (pi, prefix) in prefixes.iter().enumerate() {
+                    for ups in 3..=8usize {
+                        let evil = format!("{prefix}/{}escaped-{pi}-{ups}.bin", "../".repeat(ups));
+                        let mut e = entries.clone();
+                        e.push((evil, b"ESCAPED".to_vec()));
+                        mutants.push((format!("traversal_after_valid_prefix:{}", if pi < 2 { "wellformed_id" } else { "real_entry" }), e, false));
+                    }
+                }
+            }
             if let Some(i) = entries.iter().position(|(n, _)| n.starts_with("files/") || n.starts_with("blobs/")) {
                 for evil in ["files/../../escaped5.bin", "blobs/../../escaped6.bin"] {
                     let mut e = entries.clone();
@@ -275,7 +296,7 @@ pub async fn run(args: &Args, rep: &mut Reporter) {
                 mutants.retain(|(c, _, _)| {
                     let e = per.entry(c.clone()).or_insert(0);
                     *e += 1;
-                    *e <= 5
+                    *e <= 5 || c.starts_with("traversal_after_valid_prefix")
                 });
             }
             for (mi, (class, ents, must_fail)) in mutants.into_iter().enumerate() {
